@@ -9,7 +9,11 @@
     markers   = the `xy` array given to `ax.scatter`                       (draw_nodes)
     segments  = the `dyad_pos` array given to `LineCollection`              (draw_hyperedges)
     polygons  = the `plt.Polygon` patches given to `PatchCollection`        (draw_hyperedges)
-  every entry of the plan carries the edge it was made from (ID, members) as provenance.
+  every entry of the plan carries the edge it was made from (ID, members) as provenance.  Per-ID style dicts
+  (`node_size={id: …}`, `dyad_lw`, `edge_fc`, …) are part of the plan: the value of the k-th marker / line / polygon
+  is the dict's value at that element's ID (`perId`; this is the repaired behaviour of
+  proposed_fixes/C20-per-id-style-by-id.diff — the unrepaired code reads `dict.values()` positionally).
+  Layout keys are computed through the construction the code performs (graph built, dict zipped, index maps).
 
   External libraries as pure functions / oracles: `np.argsort` is an oracle permutation (any permutation
   that sorts the sizes; the default is a stable one), `np.mean` is the exact mean over ℚ, `np.arctan2`
@@ -86,17 +90,62 @@ inductive Family where
 def restrictKeys (ks have_ : List PyId) : Option (List PyId) :=
   if ks.all (fun k => decide (k ∈ have_)) then some ks else none
 
+/-- node list of a fresh `nx.Graph` after `add_nodes_from(l)`: first occurrences, in order (networkx merges
+    equal labels) -/
+def graphNodes {α} [DecidableEq α] (l : List α) : List α := dedup l
+
+/-- keys of `dict(zip(keys, rows))` for an array with `n` rows: `zip` stops at the shorter argument, equal keys
+    merge -/
+def zipKeys (keys : List PyId) (n : Nat) : List PyId := dedup ((keys.zip (List.range n)).map (·.1))
+
+/-- `random_layout`: `nx.drawing.layout._process_params` turns the hypergraph (not an `nx.Graph`) into an empty
+    graph holding its nodes; `pos = np.random.rand(len(G), 2)`; `dict(zip(G, pos))` -/
+def randomKeys (g : Net) : List PyId :=
+  let gn := graphNodes g.nodes
+  zipKeys gn gn.length
+
+/-- `pairwise_spring_layout`: `convert.to_graph(H)` = the graph of the n×n adjacency matrix (nodes 0 … n-1, its
+    links join these) relabelled by `{i: node for i, node in enumerate(H.nodes)}` (`mapping.get(i, i)`);
+    `nx.spring_layout` returns one position per node of that graph -/
+def pairwiseKeys (g : Net) : List PyId :=
+  graphNodes ((List.range g.nodes.length).map (fun (i : Nat) => (g.nodes[i]?).getD (PyId.int (i : Int))))
+
+/-- `bipartite_spring_layout`: `to_bipartite_graph(H, index=True)` numbers the nodes 0 … n-1 and the edges
+    n … n+m-1 (`dict(zip(H.nodes, range(n)))`, `dict(zip(H.edges, range(n, n+m)))`, for duplicate-free ID lists),
+    the graph gets these numbers as nodes (every link joins two of them), `nx.spring_layout` returns one position
+    per graph node, and `{nodedict[i]: pos[i] for i in nodedict}` / `{edgedict[i]: pos[i] for i in edgedict}` map
+    them back (`none` = `KeyError` on `pos[i]`) -/
+def bipartiteKeys (h : Net) : Option (List PyId × List PyId) :=
+  let n := h.nodes.length
+  let m := h.edges.length
+  let nodeDict := h.nodes.zip (List.range n)
+  let edgeDict := h.edgeIds.zip (List.range' n m)
+  let gn : List Nat := graphNodes (nodeDict.map (·.2) ++ edgeDict.map (·.2))
+  if (nodeDict ++ edgeDict).all (fun p => decide (p.2 ∈ gn)) then
+    some (dedup (nodeDict.map (·.1)), dedup (edgeDict.map (·.1)))
+  else none
+
+/-- `circular_layout` / `spiral_layout`: `{}` without nodes, `{list(H.nodes)[0]: center}` for one node, otherwise
+    `dict(zip(list(H.nodes), pos))` with one row per node -/
+def circularKeys (nodes : List PyId) : List PyId :=
+  match nodes with
+  | [] => []
+  | [a] => [a]
+  | _ => zipKeys nodes nodes.length
+
 /-- keys of the returned dict(s): (node keys, edge keys — `none` when the layout returns one dict);
-    outer `none` = the call raises -/
+    outer `none` = the call raises.  Every family is the construction the code performs (the graph it builds,
+    the dict it zips, the mapping back); that the result is exactly the node view (`layout_keys_spec`) is a theorem,
+    not the definition -/
 def layoutKeys (f : Family) (c : Cls) (h : Net) : Option (List PyId × Option (List PyId)) :=
   match f with
-  | .random => some ((asHypergraph c h).nodes, none)
-  | .pairwise => some ((asHypergraph c h).nodes, none)
+  | .random => some (randomKeys (asHypergraph c h), none)
+  | .pairwise => some (pairwiseKeys (asHypergraph c h), none)
   | .barycenter =>
     let g := asHypergraph c h
     (restrictKeys g.nodes (augmentedNodes g)).map (fun ks => (ks, none))
-  | .bipartite => some (h.nodes, some h.edgeIds)
-  | .circular => some (h.nodes, none)
+  | .bipartite => (bipartiteKeys h).map (fun r => (r.1, some r.2))
+  | .circular => some (circularKeys h.nodes, none)
 
 /-! ### barycenters -/
 
@@ -210,6 +259,50 @@ def drawHyperedges (h : Net) (pos : Pos) (mo : Option Int) (perm : Option (List 
   let m := match mo with | none => maxOrder h | some m => m
   let pm := match perm with | none => stableArgsort (sizesOf h m) | some p => p
   if isArgsort (sizesOf h m) pm then some (segments h pos, polygonsWith h pos m pm) else none
+
+/-! ### per-ID style arguments (`_draw_arg_to_arr`, `_parse_color_arg` on a dict)
+
+The model describes the repaired code (proposed_fixes/C20-per-id-style-by-id.diff): the value of an element is the
+dict's value at that element's ID.  The unchanged code takes `list(d.values())`, i.e. `positional`. -/
+
+/-- a style value: a number (size, width, value to be colour-mapped) or a colour name -/
+inductive SVal where
+  | num (q : Rat)
+  | col (s : String)
+  deriving DecidableEq, Repr
+
+/-- a Python dict `{id: value}` in its own (insertion) order -/
+abbrev SDict := List (PyId × SVal)
+
+/-- `d[i]` (`none`: `i not in d`) -/
+def SDict.get? (d : SDict) (i : PyId) : Option SVal := (d.find? (fun p => p.1 = i)).map (·.2)
+
+/-- the unchanged code: `list(d.values())`, applied to the elements by position -/
+def positional (d : SDict) : List SVal := d.map (·.2)
+
+/-- the repaired code: `[d[i] for i in ids if i in d]` with `ids` the plotted elements in plotting order; matplotlib
+    (and the length check of `_parse_color_arg`) want one value per element: `none` = an element without entry -/
+def perId (d : SDict) (ids : List PyId) : Option (List SVal) :=
+  let vs := ids.filterMap d.get?
+  if vs.length = ids.length then some vs else none
+
+/-- `draw_nodes`: `_draw_arg_to_arr(node_size | node_fc | node_lw, list(H.nodes))` — value of the k-th marker -/
+def markerStyles (h : Net) (d : SDict) : Option (List SVal) := perId d h.nodes
+
+/-- `draw_hyperedges`: `_draw_arg_to_arr(dyad_lw, list(dyads))`, `_parse_color_arg(dyad_color, list(dyads))` —
+    value of the k-th line -/
+def segmentStyles (h : Net) (d : SDict) : Option (List SVal) := perId d ((dyads h).map (·.1))
+
+/-- `draw_hyperedges`: `_parse_color_arg(edge_fc | edge_ec, list(edges))[ids_sorted]` with
+    `ids_sorted = np.argsort(sizes)[::-1]` — value of the k-th polygon in drawing order (for fewer than two values
+    the code skips the re-indexing, which is then the identity) -/
+def polygonStyles (h : Net) (mo : Int) (perm : List Nat) (d : SDict) : Option (List SVal) :=
+  (perId d ((polyEdges h mo).map (·.1))).map (fun vs => perm.reverse.filterMap (fun i => vs[i]?))
+
+/-- the maximum order / argsort oracle in force inside `draw_hyperedges` -/
+def effOrder (h : Net) (mo : Option Int) : Int := match mo with | none => maxOrder h | some m => m
+def effPerm (h : Net) (m : Int) (perm : Option (List Nat)) : List Nat :=
+  match perm with | none => stableArgsort (sizesOf h m) | some p => p
 
 /-! ### simplicial complexes: `draw_simplices` -/
 
